@@ -27,7 +27,7 @@ for _p in ["C01", "C02", "C06", "C08", "C09", "C11", "C12", "C13", "C14", "C15",
 
 register(
     "C04",
-    modules=["contracts.c16", "contracts.node_getters"],
+    modules=["contracts.c16", "contracts.node_getters", "contracts.node_decisions", "contracts.traversal", "contracts.loop_blocks"],
     level="proof",
     explanation="occupancy predicates proved exact for all heaps; segment obligations and lemma Inv4 (see obligations)",
     trusted=["TestNode.bridged_form summarised as a pure string function of the node"],
@@ -39,7 +39,7 @@ LEVEL_TEXT["C04"] = ("The occupancy predicates (is_started / is_occupied and the
 
 register(
     "C10",
-    modules=["contracts.c16", "contracts.node_getters", "contracts.node_decisions"],
+    modules=["contracts.c16", "contracts.node_getters", "contracts.node_decisions", "contracts.runner"],
     level="proof",
     explanation="retry/stop decision table of should_rerun proved per configuration case; uid / own result / verdict obligations",
     trusted=[],
@@ -50,7 +50,7 @@ LEVEL_TEXT["C10"] = ("The retry/stop decision table of should_rerun is proved (2
 
 register(
     "C03",
-    modules=["contracts.c16", "contracts.node_getters", "contracts.node_decisions"],
+    modules=["contracts.c16", "contracts.node_getters", "contracts.node_decisions", "contracts.node_edges", "contracts.runner", "contracts.traversal"],
     level="proof",
     explanation="run decision, retry budget clause, placeholder accounting",
     trusted=[],
@@ -61,7 +61,7 @@ LEVEL_TEXT["C03"] = ("Run decision (first-examination skip, rerun budget clause,
 
 register(
     "C05",
-    modules=["contracts.c16", "contracts.node_getters", "contracts.node_decisions"],
+    modules=["contracts.c16", "contracts.node_getters", "contracts.node_decisions", "contracts.node_edges", "contracts.traversal", "contracts.loop_blocks"],
     level="proof",
     explanation="clean decision guard, readiness predicates, sync request discipline",
     trusted=[],
@@ -73,7 +73,7 @@ LEVEL_TEXT["C05"] = ("The clean decision guard ('last worker closes the door') a
 
 register(
     "C02",
-    modules=["contracts.c16", "contracts.node_getters", "contracts.node_decisions", "contracts.node_edges", "contracts.runner"],
+    modules=["contracts.c16", "contracts.node_getters", "contracts.node_decisions", "contracts.node_edges", "contracts.runner", "contracts.traversal", "contracts.loop_blocks"],
     level="proof",
     explanation="safety clauses of the traversal: pick/drop error freedom, bounded result wait, definite status",
     trusted=[],
@@ -150,3 +150,63 @@ LEVEL_TEXT["C09"] = GRAPH_NOTE
 for _pid in ("C06", "C09"):
     NOT_APPLICABLE.pop(_pid, None)
 
+
+E1_TECHNIQUE = ("contract-based deductive verification: VCs generated from the real functions' AST against side-car "
+                "contracts, discharged by z3; native replay of counter-models; bounded native check for the clauses "
+                "outside the engine's reach (labelled bounded)")
+
+PROPS["C17"].update(
+    modules=["contracts.states_show"], level="proof", technique=E1_TECHNIQUE,
+    explanation="'a vm state is reported exactly when every image has it (and, for ramfile states, the memory file "
+                "exists)' proved for QCOW2VTBackend.show and RamfileBackend._show with 1..3 images and arbitrary "
+                "(unbounded) per-image listings and directory contents; on/off separation of the qemu-img regexes: bounded",
+    trusted=["per-image listing (qemu-img snapshot output parsed by QCOW2Backend.show) is a seam: an arbitrary function "
+             "of the image name", "os.listdir / os.stat / os.path.join as seams"],
+    undecided_clauses=[])
+LEVEL_TEXT["C17"] = ("The intersection clause is proved for 1..3 images (the property's own range) with unbounded listings "
+                     "(E1); the separation of on/off states by the two qemu-img regexes is checked over generated "
+                     "listings (bounded stand-in, labelled).")
+
+PROPS["C12"].update(
+    modules=["contracts.state_ops"], level="proof", technique=E1_TECHNIQUE,
+    explanation="per-object decision step of check/get/set/unset_states (loop body extracted mechanically) proved against "
+                "the documented policy table for arbitrary parameters: reuse / ignore / force / abort, abort and invalid "
+                "policy raise without any back end call, skipped types and read-only images untouched; the iteration "
+                "over objects, untouched objects and the store refinement of operation sequences: bounded",
+    trusted=["existence oracle _state_check_chain, back end registry and back end operations as seams (call log)"],
+    undecided_clauses=[])
+LEVEL_TEXT["C12"] = ("The per-object policy step of check/get/set/unset_states is proved for all mode strings, object "
+                     "types and parameter settings (E1, extracted loop bodies); object iteration, frame over several "
+                     "objects and the set-of-names store model over operation sequences are checked exhaustively over "
+                     "the stated finite scope (bounded stand-in, labelled).")
+
+PROPS["C13"].update(
+    modules=["contracts.pool_scopes"], level="proof", technique=E1_TECHNIQUE,
+    explanation="scope classification (get_source_scope) proved exact; per-source step of show/get/set/unset (loop bodies "
+                "extracted mechanically) proved: a source is contacted only if its scope is enabled and it is not the "
+                "own pool, set/unset reach every permitted mirror, get stops at the first permitted source and downloads "
+                "only if the pool has the state and the local copy is missing or differs; proximity score bands ordered "
+                "own >= shared > swarm > cluster; refusals of set_root / set without local state; whole-operation "
+                "behaviour over source lists (ordering by sorted, end-to-end): bounded",
+    trusted=["transport operations and the local back end (_show/_set/...) as seams with a call log",
+             "sorted(key=proximity, reverse=True) orders by the proved key (Python semantics)"],
+    undecided_clauses=[])
+LEVEL_TEXT["C13"] = ("Scope table, per-source steps, proximity bands and refusals are proved for arbitrary parameters and "
+                     "source strings (E1; loop bodies and the key function extracted mechanically); complete operations "
+                     "over enumerated source lists and scope subsets are checked with a recording transport (bounded "
+                     "stand-in, labelled).")
+
+PROPS["C14"].update(
+    modules=["contracts.pool_locks"], level="proof", technique=E1_TECHNIQUE,
+    explanation="lock discipline of the local and link transfer operations proved with image_lock inlined: every access to "
+                "the pool file happens with the lock held, the lock is released on every normal and exceptional exit, a lock "
+                "not acquired within the (symbolic) timeout raises after exactly `timeout` attempts instead of proceeding, "
+                "copies are skipped when both sides match, link mode never replaces real data and never uploads a link; "
+                "byte-identity of copies and exclusion between processes: bounded (real files, forked lock holders)",
+    trusted=["fcntl.lockf semantics (kernel), shutil.copy, os.* and the md5 comparison as seams",
+             "mutual exclusion between processes is the kernel's fcntl guarantee given the discipline proved here"],
+    undecided_clauses=["remote transfers (download_remote/upload_remote use a remote shell session, not the local lock)"])
+LEVEL_TEXT["C14"] = ("Lock discipline (held during every pool file access, released on every exit, timeout raises) and the "
+                     "link-mode safety clauses are proved for the local/link transfer operations with image_lock inlined "
+                     "(E1, symbolic timeout); byte-exact copies on real directories, exception injection and forked lock "
+                     "holders are exercised by the bounded stand-in (labelled).")
